@@ -37,7 +37,10 @@ def exhaustive(tier):
 
 def plan(tier):
     n, per = (16, 150) if tier == "quick" else (16, 2500)
-    return [{"kind": "random", "examples": per, "max_modules": 8 if tier == "quick" else 24, "big_payloads": i == 0} for i in range(n)]
+    from vlib import subproc
+
+    names = [v for v in sorted(subproc.VARIANTS) if v != "plain"]
+    return [{"kind": "random", "examples": per, "max_modules": 8 if tier == "quick" else 24, "big_payloads": i == 0} for i in range(n)] + [{"kind": "interpreters", "variants": names[i::2]} for i in range(2)]
 
 
 def project_labels(spec):
@@ -196,7 +199,54 @@ def spec_with_second_stage(draw, depth, max_modules):
     return spec
 
 
+def fixed_roundtrip_digests():
+    """Save / load digests of a few fixed projects (all payload-bearing module types, a MetaModule, a Sampler
+    with samples and effect, links, patterns): {name: digest of the file + digest of the loaded state}"""
+    import hashlib
+    import json
+
+    from checks import c05
+    from rv.api import read_sunvox_file
+    from vlib.harness import jsonable
+
+    out = {}
+    projects = {"mixed": c05.other_project()}
+    for i, ms in enumerate(build.big_payload_module_specs()[:1] + [{"type": t, "common": {}, "sets": [], "options": [], "cmid": [], "payload": {}} for t in ("SpectraVoice", "MultiSynth", "Fmx", "WaveShaper", "VorbisPlayer", "Sound2Ctl", "Lfo")]):
+        projects["%d_%s" % (i, ms["type"])] = build.make_project({"modules": [ms], "patterns": [], "fields": {}, "links": [["c", 1, 0]]})
+    for name, p in projects.items():
+        try:
+            data = p.read()
+            q = read_sunvox_file(BytesIO(data))
+            out[name] = hashlib.sha256(data).hexdigest()[:16] + ":" + hashlib.sha256(json.dumps(jsonable(snapshot.snap_project(q)), sort_keys=True).encode()).hexdigest()[:16]
+        except Exception as e:  # noqa: BLE001
+            out[name] = "raised %s: %s" % (type(e).__name__, str(e)[:80])
+    return out
+
+
+def run_interpreters(ctx, desc):
+    """The round trip does not depend on how the interpreter was started (python -O, -OO, -W error, -X dev,
+    C locale, other first imports, logging opened before the import)."""
+    from vlib import subproc
+
+    here = fixed_roundtrip_digests()
+    body = "from checks import c01\nimport logging\nlogging.disable(logging.CRITICAL)\nRESULT = c01.fixed_roundtrip_digests()\n"
+    for v in desc["variants"]:
+        res = subproc.run(v, body)
+        rec = {"op": "interpreter", "variant": v}
+        ctx.case(len(here))
+        if res.get("__failed__"):
+            ctx.check(False, "C01.interpreter.fails", "round trips in a fresh interpreter (%s) failed: rc=%r %s" % (v, res.get("returncode"), (res.get("stderr") or "")[-400:]), key="C01.interpreter:" + v, recipe=rec)
+            continue
+        bad = sorted(k for k in here if res.get(k) != here[k])
+        ctx.check(not bad, "C01.interpreter.differs", "in an interpreter started as %r the round trip of %r gives %r, here %r" % (v, bad[:1], res.get(bad[0]) if bad else None, here.get(bad[0]) if bad else None), key="C01.interpreter:" + v, recipe=rec)
+        ctx.label("interpreter_" + v)
+        ctx.mark_nontrivial(rec)
+
+
 def run_shard(ctx, desc):
+    if desc.get("kind") == "interpreters":
+        run_interpreters(ctx, desc)
+        return
     depth = 1 if ctx.tier == "quick" else 2
     build.BIG_PATTERNS["on"] = ctx.tier == "thorough"
 
@@ -252,4 +302,12 @@ def run_shard(ctx, desc):
 
 
 def replay(ctx, doc):
+    if doc["recipe"].get("op") == "interpreter":
+        from vlib.harness import Ctx
+
+        c2 = Ctx(ctx.prop, ctx.tier, ctx.seed, 0, 1, [])
+        run_interpreters(c2, {"variants": [doc["recipe"]["variant"]]})
+        if c2.failures:
+            raise PropertyViolation(c2.failures[0]["sub_oracle"], c2.failures[0]["detail"], c2.failures[0]["key"])
+        return
     check_project_spec(ctx, doc["recipe"]["case"])
